@@ -10,7 +10,7 @@ META = {
              'symtable.symtable() of the same program with list/set/dict comprehensions rewritten to generator expressions (PEP 709 '
              'inlining removed), compiler-internal names filtered, class-private names mangled; (b) the Name/arg nodes yielded by '
              'walk(scope=True) compared with a reference owner map computed by an independent visitor that is itself validated against '
-             'symtable per scope (a scope where the visitor and symtable disagree is not judged). A cell is (scope kind, feature set). Plus generated scoping programs: every name of a 5-name pool used in a random subset of ~27 binding/reference forms (assignment, del, augmented, global/nonlocal, for/with/import/except/walrus targets, comprehension variables and nested first iterables, lambda and def parameters/defaults/annotations, class bodies) in nested scopes up to depth 3; programs the compiler rejects are skipped.'),
+             'symtable per scope (a scope where the visitor and symtable disagree is not judged). A cell is (scope kind, feature set). Plus generated scoping programs: every name of a 5-name pool used in a random subset of ~29 binding/reference forms (assignment, del, augmented, global/nonlocal, for/with/import/except/walrus targets, walrus in the body and in the defaults of a lambda nested in a comprehension, comprehension variables and nested first iterables, lambda and def parameters/defaults/annotations, class bodies) in nested scopes up to depth 3; programs the compiler rejects are skipped.'),
     'budget': {'quick': 40, 'thorough': 600},
     'floors': {'quick': {'generated_scope_programs': 600, 'scopes_names_compared': 3000, 'scopes_walk_compared': 2500, 'programs': 40},
                'thorough': {'generated_scope_programs': 10000, 'scopes_names_compared': 30000, 'scopes_walk_compared': 25000, 'programs': 300}},
@@ -546,6 +546,12 @@ TORTURE = [
     'def f():\n    return [lambda: i for i in range(3)], {j for j in k}, {m: n for m, n in o}\n',
     'def f():\n    for x in [x for x in x]: pass\n',
     'def f():\n    class A:\n        global gg\n        gg = 1\n        def m(self):\n            return gg\n',
+    # a walrus in the body of a lambda nested in a comprehension binds in the lambda; in its defaults it binds in the enclosing function
+    'def f(z):\n    return [(lambda: (y := 1)) for x in z]\n',
+    'def f(z):\n    return [(lambda a=(w := 2): (y := a)) for x in z if (q := x)]\n',
+    'def f(z):\n    return [[(lambda: (y := 1))() + (k := 3) for i in x] for x in z]\n',
+    'def f(z):\n    return {(lambda: [(u := v) for v in x]): (lambda: (t := 1)) for x in z}\n',
+    'g = (lambda: (y := 1) for x in z)\nh = [lambda p, q=(r := 1): (s := p) for x in z]\n',
 ]
 
 
@@ -574,6 +580,7 @@ def gen_scope_program(rnd, depth=0, kind='module', bound_outer=()):
         lambda: f'{N()} = lambda {N()}, {N()}={N()}: ({N()}, {N()})', lambda: f'{N()}: {N()} = {N()}', lambda: f'{N()}: {N()}',
         lambda: f'del {N()}, {N()}[0], {N()}.{N()}', lambda: f'({N()}, [{N()}, *{N()}]) = {N()}', lambda: f'if ({N()} := {N()}): pass',
         lambda: f'print([{N()} for {N()} in [{N()} for {N()} in {N()}]])', lambda: f'print([lambda: {N()} for {N()} in {N()}])',
+        lambda: f'print([(lambda {N()}=({N()} := {N()}): ({N()} := {N()})) for {N()} in {N()}])', lambda: f'print({{{N()}: (lambda: ({N()} := {N()})) for {N()} in {N()} if ({N()} := {N()})}})',
         lambda: f'print({{{N()} for {N()} in ({N()} for {N()} in {N()})}})', lambda: f'async def g{depth}():\n{ind}    return [await {N()} async for {N()} in {N()}]',
     ]
     bound = set()
